@@ -415,10 +415,12 @@ let main_c15 file full =
                    (match more with
                     | f :: _ ->
                       (match List.filter (fun x -> x <> "") (split_on ' ' f) with
-                       | used :: freed :: _ :: freeafter :: _ ->
-                         (* every free block could be allocated, and deleting everything frees them all again *)
+                       | used :: freed :: _ :: freeafter :: more2 ->
+                         (* every free block could be allocated, and deleting everything frees them all again
+                            (except the blocks the root directory itself grew into while holding the files' names) *)
+                         let rootgrow = match more2 with g :: _ -> int_of_string g | [] -> 0 in
                          if int_of_string used <> ffb then add (Printf.sprintf "fill:allocated=%s of %d" used ffb);
-                         if int_of_string freeafter <> ffb then add (Printf.sprintf "fill:free-after-delete=%s of %d" freeafter ffb);
+                         if int_of_string freeafter + rootgrow <> ffb then add (Printf.sprintf "fill:free-after-delete=%s+%d of %d" freeafter rootgrow ffb);
                          ignore freed
                        | _ -> ())
                     | [] -> ())
